@@ -3,8 +3,13 @@ package checks
 import (
 	"bytes"
 	"encoding/json"
+	"encoding/pem"
 )
 
 func jsonUnmarshal(b []byte, v any) error { return json.Unmarshal(b, v) }
 
 func bytesReader(b []byte) *bytes.Reader { return bytes.NewReader(b) }
+
+type pemBlock = pem.Block
+
+func pemDecode(b []byte) (*pem.Block, []byte) { return pem.Decode(b) }
